@@ -253,7 +253,7 @@ def _replay_chunk(chk, exe, model, variants, cases, chunk_no):
 
 NAMES = ["out", "in", "level", "file", "name", "x1", "verbose", "quiet", "dry", "force", "all", "multi", "inc", "def", "long-name", "a", "o", "n"]
 LETTERS = "abcdefghiovqmxyzAB12"
-VALUES = [b"", b"x", b"a=b", b"=x", b"-x", b"--out=y", b"a\nb", b" ", b"\xc3\xa4", b"12", b"-5", b"007", b"a;b", b"x y", b"\t", b"=", b"--", b"-"]
+VALUES = [b"", b"x", b"a=b", b"=x", b"-x", b"--out=y", b"a\nb", b" ", b"\xc3\xa4", b"12", b"-5", b"007", b"a;b", b"x y", b"\t", b"=", b"--", b"-", b"{}", b"a{}b", b"%s"]
 ENVVALS = [b"x", b"--a=b", b"-5", b"-", b"a=b", b"=b", b"a;b", b";a;;b;", b"TRUE", b"0", b"maybe", b"on", b"Off", b"yes ", b"y", b";", b"--", b"a\nb", b"\xff\xfe"]
 
 
